@@ -1977,4 +1977,80 @@ Proof.
   apply (sorted_app_klt s (a1 :: a') (n :: b') p n Hs); [rewrite Hpa; apply last_in; discriminate|left; reflexivity].
 Qed.
 
+
+(* ---------- a reader running concurrently with any number of Puts ---------- *)
+Lemma cexec_inv_from : forall s tr s', cexec s tr s' -> forall lv, inv s lv -> exists lv', inv s' lv'.
+Proof.
+  intros s tr s' Hex. induction Hex as [s|s tr s' a Hex IH G]; intros lv H; [exists lv; exact H|].
+  destruct (IH lv H) as [lv1 H1]. destruct (cstep_inv s' lv1 a H1 G) as [lv' [H' _]]. exists lv'. exact H'.
+Qed.
+
+Lemma stable_multi : forall s tr s', cexec s tr s' -> forall lv, inv s lv ->
+  (forall y, y < length (nodes _ _ s) -> kof s' y = kof s y) /\
+  length (nodes _ _ s) <= length (nodes _ _ s') /\
+  (forall i y, i < max_height -> In y (level_nodes s i) -> In y (level_nodes s' i)).
+Proof.
+  intros s tr s' Hex. induction Hex as [s|s tr s' a Hex IH G]; intros lv H.
+  - repeat split; auto.
+  - destruct (IH lv H) as [A [B C]]. destruct (cexec_inv_from s tr s' Hex lv H) as [lv1 H1].
+    destruct (stable_step s' lv1 a H1 G) as [A' [B' [_ C']]].
+    split; [|split; [lia|]].
+    + intros y Hy. destruct (A' y ltac:(lia)) as [E _]. rewrite E. apply A. exact Hy.
+    + intros i y Hi Hy. apply C'; [exact Hi|]. apply C; assumption.
+Qed.
+
+Notation reader_fwd := (reader_fwd K V cmp dk dv wfk).
+
+(* every node the reader visits is linked, and the keys it sees are strictly increasing:
+   never unsorted, never a duplicate (keys and values of nodes are immutable / atomic) *)
+Theorem reader_fwd_sorted : forall s p ns s2, reader_fwd s p ns s2 ->
+  forall lv, inv s lv -> linked_at s 0 p ->
+  (forall n, In n ns -> In n (level_nodes s2 0)) /\
+  StronglySorted (fun a b => cmp (kof s2 a) (kof s2 b) = Lt) ns /\
+  (p <> head -> forall n, In n ns -> cmp (kof s2 p) (kof s2 n) = Lt).
+Proof.
+  intros s p ns s2 Hr. induction Hr as [s p|s p tr s1 n rest s2 Hex Hgn Hn Hr IH]; intros lv H Hp.
+  - split; [intros n []|]. split; [constructor|intros _ n []].
+  - destruct (cexec_inv_from s tr s1 Hex lv H) as [lv1 H1].
+    destruct (stable_multi s tr s1 Hex lv H) as [_ [_ Hlk]].
+    assert (Hp1 : linked_at s1 0 p).
+    { destruct Hp as [Hp|Hp]; [left; exact Hp|right; apply Hlk; [unfold max_height; lia|exact Hp]]. }
+    destruct (read_next_spec s1 lv1 0 p n H1 ltac:(unfold max_height; lia) Hp1 Hgn Hn) as [Hin Hord].
+    destruct (IH lv1 H1 (or_intror Hin)) as [IH1 [IH2 IH3]].
+    (* from s1 to s2: keys of existing nodes and linkedness are kept *)
+    assert (Hrest : exists tr', cexec s1 tr' s2).
+    { clear - Hr. induction Hr as [s p|s p tr s1 n rest s2 Hex _ _ _ IH]; [exists []; constructor|].
+      destruct IH as [tr' Hex']. exists (tr ++ tr'). clear - Hex Hex'.
+      induction Hex' as [s1|s1 tr' s' a Hex' IH G]; [rewrite app_nil_r; exact Hex|].
+      rewrite app_assoc. constructor; [apply IH; exact Hex|exact G]. }
+    destruct Hrest as [tr' Hex'].
+    destruct (stable_multi s1 tr' s2 Hex' lv1 H1) as [Hk2 [_ Hlk2]].
+    assert (Hn_lt : n < length (nodes _ _ s1)) by (rewrite (level_nodes_lvl s1 lv1 0 H1) in Hin by (unfold max_height; lia); pose proof (i_range _ _ H1 0 n Hin); lia).
+    assert (Hnh : n <> head).
+    { rewrite (level_nodes_lvl s1 lv1 0 H1) in Hin by (unfold max_height; lia). pose proof (i_range _ _ H1 0 n Hin). unfold head. lia. }
+    split; [|split].
+    + intros m [<-|Hm]; [apply Hlk2; [unfold max_height; lia|exact Hin]|apply IH1; exact Hm].
+    + constructor; [exact IH2|]. apply Forall_forall. intros m Hm. apply (IH3 Hnh m Hm).
+    + intros Hph m [<-|Hm].
+      * destruct Hord as [Hc|Hlt]; [contradiction|]. unfold klt in Hlt.
+        destruct Hp1 as [Hc|Hp1]; [contradiction|].
+        assert (Hp_lt : p < length (nodes _ _ s1)).
+        { rewrite (level_nodes_lvl s1 lv1 0 H1) in Hp1 by (unfold max_height; lia). pose proof (i_range _ _ H1 0 p Hp1). lia. }
+        rewrite (Hk2 p Hp_lt), (Hk2 n Hn_lt). exact Hlt.
+      * (* p < n < m *)
+        destruct (cexec_inv_from s1 tr' s2 Hex' lv1 H1) as [lv2 H2].
+        destruct Hord as [Hc|Hlt]; [contradiction|]. unfold klt in Hlt.
+        destruct Hp1 as [Hc|Hp1]; [contradiction|].
+        assert (Hp_lt : p < length (nodes _ _ s1)).
+        { rewrite (level_nodes_lvl s1 lv1 0 H1) in Hp1 by (unfold max_height; lia). pose proof (i_range _ _ H1 0 p Hp1). lia. }
+        assert (W : forall y, In y (level_nodes s2 0) -> wfk (kof s2 y)).
+        { intros y Hy. rewrite (level_nodes_lvl s2 lv2 0 H2) in Hy by (unfold max_height; lia). apply (i_wfk _ _ H2 y Hy). }
+        apply (cmp_trans _ (kof s2 n)).
+        -- apply W. apply Hlk2; [unfold max_height; lia|exact Hp1].
+        -- apply W. apply Hlk2; [unfold max_height; lia|exact Hin].
+        -- apply W. apply IH1. exact Hm.
+        -- rewrite (Hk2 p Hp_lt), (Hk2 n Hn_lt). exact Hlt.
+        -- apply (IH3 Hnh m Hm).
+Qed.
+
 End Proofs.
